@@ -139,6 +139,22 @@ T = [
      "#[warn(clippy::missing_trait_methods)]\nimpl<Wr: writer::Normalized, F> writer::Normalized for FailOnSkipped<Wr, F> {}\n\nimpl<Wr: writer::NonTransforming, F> writer::NonTransforming\n    for FailOnSkipped<Wr, F>\n{\n}"),
     ("c13_tee_non_transforming_unconditionally", "C13/R4", "src/writer/tee.rs",
      "impl<L, R> writer::NonTransforming for Tee<L, R>\nwhere\n    L: writer::NonTransforming,\n    R: writer::NonTransforming,\n{\n}", "impl<L, R> writer::NonTransforming for Tee<L, R>\nwhere\n    L: writer::NonTransforming,\n{\n}"),
+    # ---- C15
+    ("c15_tags_over_scenario_tags_only", "C15/R1", "src/cucumber.rs",
+     "                                feat.tags\n                                    .iter()\n                                    .chain(rule.iter().flat_map(|r| &r.tags))\n                                    .chain(scenario.tags.iter()),", "                                scenario.tags.iter(),"),
+    ("c15_and_uses_or", "C15/R2", "src/tag.rs",
+     "            Self::And(l, r) => l.eval(tags.clone()) & r.eval(tags),", "            Self::And(l, r) => l.eval(tags.clone()) | r.eval(tags),"),
+    ("c15_filtered_scenarios_reversed", "C15/R3", "src/cucumber.rs",
+     "            feature.scenarios = feat_scenarios\n                .into_iter()\n                .filter(|s| filter(&feature, None, s))\n                .collect();", "            feature.scenarios = feat_scenarios\n                .into_iter()\n                .rev()\n                .filter(|s| filter(&feature, None, s))\n                .collect();"),
+    ("c15_name_filter_after_tags", "C15/R1", "src/cucumber.rs",
+     "            re_filter.as_ref().map_or_else(\n                || {\n                    tags_filter.as_ref().map_or_else(\n                        || filter(feat, rule, scenario),",
+     "            re_filter.as_ref().filter(|_| tags_filter.is_none()).map_or_else(\n                || {\n                    tags_filter.as_ref().map_or_else(\n                        || filter(feat, rule, scenario),"),
+    ("c15_rule_scenarios_filtered_without_rule", "C15/R3", "src/cucumber.rs",
+     "                    .filter(|s| filter(&feature, Some(r), s))", "                    .filter(|s| {\n                        let _ = &r;\n                        filter(&feature, None, s)\n                    })"),
+    ("c15_name_regex_on_feature_name", "C15/R1", "src/cucumber.rs",
+     "                |re| re.is_match(&scenario.name),", "                |re| re.is_match(&feat.name),"),
+    ("c15_not_ignored", "C15/R2", "src/tag.rs",
+     "            Self::Not(t) => !t.eval(tags),", "            Self::Not(t) => t.eval(tags),"),
     # ---- C10
     ("c10_world_new_outside_catch", "C10/R1", B,
      "                match AssertUnwindSafe(async { W::new().await })\n                    .catch_unwind()\n                    .then_yield()\n                    .await\n                {\n                    Ok(Ok(w)) => w,",
